@@ -176,7 +176,7 @@ def explore(fn, params, spec, *, forced=(), seed=0, depth_limit=None, deadline=N
             except Violation as v:
                 v.assignment = sp.assignment()
                 v.decisions = sp.decisions()
-                v.trace = list(sp.trace)
+                v.trace = sp.trace_lines()
                 res['violations'].append(dict(
                     clause=v.clause, info={k: _jsonable(x) for k, x in v.info.items()},
                     detail=str(v.detail),
@@ -225,7 +225,7 @@ def explore(fn, params, spec, *, forced=(), seed=0, depth_limit=None, deadline=N
                         res['samples'].append(dict(
                             decisions=[_jsonable(d) for d in sp.decisions()],
                             model={k: _jsonable(x) for k, x in asg.items()},
-                            trace=list(sp.trace)[:40], covers=sorted(sp.covers)))
+                            trace=sp.trace_lines()[:40], covers=sorted(sp.covers)))
                     except (Infeasible, Inconclusive):
                         pass
                 if concolic and not res['violations']:
@@ -377,11 +377,13 @@ def run_property(pid, tier, seed):
     per = collections.OrderedDict()     # (hname, idx) -> aggregate
     jobs = []
     problems = []                       # harness errors -> exit 3
-    for idx, (hname, params) in enumerate(plan):
+    for idx, entry in enumerate(plan):
+        hname, params = entry[0], entry[1]
         spec = mod.HARNESSES[hname]
         key = (hname, idx)
         agg = new_result()
         agg['params'] = params
+        agg['required'] = (entry[2].get('required') if len(entry) > 2 else None)
         agg['shards'] = 0
         per[key] = agg
         if spec.get('kind') == 'custom':
@@ -408,7 +410,8 @@ def run_property(pid, tier, seed):
             depth += 1 if depth < 8 else 2
             front = explore(spec['fn'], params, spec, seed=seed, depth_limit=depth if target > 1 else None,
                             known_entries=known_entries, hname=hname, deadline=deadline,
-                            collect_funcs=True)
+                            collect_funcs=True,
+                            concolic=(tier == 'thorough' and spec.get('concolic', False)))
             if not front['cuts'] or len(front['cuts']) >= target or front['violations'] \
                     or front['errors'] or depth > 60 or not front['exhausted']:
                 break
@@ -473,7 +476,7 @@ def run_property(pid, tier, seed):
                 problems.append('%s: counterexample for clause %s did not reproduce concretely '
                                 '(proxy/stub unfaithful?) replay=%s\n%s' % (hname, v['clause'], path, text))
         if not agg['violations'] and agg['exhausted']:
-            for tag in spec.get('required', ()):
+            for tag in (agg.get('required') if agg.get('required') is not None else spec.get('required', ())):
                 if not agg['covers'].get(tag):
                     problems.append('%s: vacuity: cover tag %r never hit' % (hname, tag))
     wall = time.time() - t0
